@@ -10,6 +10,8 @@ length-prefixed; matrices row-major as one list; `sweep` = 0 forward, 1 backward
        -> <x> ; k or inf ; <res²/res0² after every step>        (solve_hmultigrid glue: iterative_solve ∘ local_mg_step)
   isolve <c> <d> <a> <f> hasx0 [x0] tol maxiter        scalar step x ↦ c·x + d, residual f − a·x
        -> x ; k or inf        (initial residual zero: returns x0 ; 0)
+  isolvev n <A> <f> <B> <c> hasx0 [<x0>] <active> tol maxiter     vector step x ↦ B·x + c, residual on `active`
+       -> <x> ; k or inf ; <res²/res0² after every step>
   twogrid n nc <A> <P n*nc> <f> hasu0 [<u0>] tol smooth_steps maxiter gsiters sweep
        -> <u> ; numiter ; exit ; <res²/res0² judged in every round>
   smooth numlevels useExtra disparity(-1 = inf) <act_l>.. <deact_l>.. <dir[lv][i]>.. <extra[lv][i]>.. <avail[lv][l]>..
@@ -195,6 +197,28 @@ def doISolve : P String := do
   let (x, k) := iterativeSolveNow (res0sq == 0) (fun x => c * x + d) (fun x => convSq res0sq tol ((f - a * x) * (f - a * x))) maxiter x0
   pure s!"{showRat x} ; {match k with | some k => toString k | none => "inf"}"
 
+/-- `iterative_solve(lambda x: B@x + c, A, f, x0, active_dofs=active, tol, maxiter)`: both the initial and the
+running residual are restricted to `active_dofs` (lines 264-285). -/
+def doISolveV : P String := do
+  let n ← nat
+  let A ← list rat; let f ← list rat; let B ← list rat; let c ← list rat
+  let hx ← bool
+  let x0 ← if hx then list rat else pure ((List.range n).map (fun _ => 0))
+  let active ← list nat
+  let tol ← rat; let maxiter ← nat
+  let A := toMat n A; let B := toMat n B
+  let fv : Vec := ⟨f⟩
+  let ressq (x : Vec) : Rat := let r := fv - matVec A ⟨pad n x⟩; dot (gather r active) (gather r active)
+  -- `x0 is None`: `res0 = f` (x = 0), else `f - A @ x0`; then restricted to the active dofs
+  let res0 := ressq ⟨x0⟩
+  let step (x : Vec) : Vec := matVec B ⟨pad n x⟩ + ⟨c⟩
+  let (x, k) := iterativeSolveNow (res0 == 0) step (fun x => convSq res0 tol (ressq x)) maxiter ⟨x0⟩
+  let kk := match k with | some k => k | none => (if maxiter = 0 then 1 else maxiter)
+  let ratios := ((List.range kk).foldl (fun (st : Vec × List Rat) _ =>
+      let x' := step st.1
+      (x', st.2 ++ [if res0 = 0 then -1 else ressq x' / res0])) ((⟨x0⟩ : Vec), [])).2
+  pure s!"{showRats (pad n x)} ; {match k with | some k => toString k | none => "inf"} ; {showRats ratios}"
+
 def doTwogrid : P String := do
   let n ← nat; let nc ← nat
   let A ← list rat; let Pm ← list rat; let f ← list rat
@@ -247,6 +271,7 @@ def request : P String := do
   | "mg" => doMg
   | "mgsolve" => doMgSolve
   | "isolve" => doISolve
+  | "isolvev" => doISolveV
   | "twogrid" => doTwogrid
   | "smooth" => doSmooth
   | _ => failure
